@@ -32,6 +32,38 @@ impl Write for ShortWriter {
     }
 }
 
+/// A sink that misbehaves the way real ones legally do: every `interrupt_every`-th `write` call
+/// fails with `ErrorKind::Interrupted` (nothing consumed - the caller is expected to retry, as
+/// `write_all` does), and once `room` bytes have been accepted every further `write` fails hard.
+struct HostileSink {
+    buf: Vec<u8>,
+    calls: u64,
+    interrupt_every: u64,
+    room: usize,
+    max: usize,
+}
+
+impl Write for HostileSink {
+    fn write(&mut self, data: &[u8]) -> io::Result<usize> {
+        self.calls += 1;
+        if self.interrupt_every > 0 && self.calls % self.interrupt_every == 0 {
+            return Err(io::Error::new(io::ErrorKind::Interrupted, "interrupted"));
+        }
+        if data.is_empty() {
+            return Ok(0);
+        }
+        if self.buf.len() >= self.room {
+            return Err(io::Error::new(io::ErrorKind::Other, "sink full"));
+        }
+        let n = data.len().min(self.max).min(self.room - self.buf.len());
+        self.buf.extend_from_slice(&data[..n]);
+        Ok(n)
+    }
+    fn flush(&mut self) -> io::Result<()> {
+        Ok(())
+    }
+}
+
 #[derive(Clone, Copy, Debug)]
 struct Render {
     radius: usize,
@@ -45,6 +77,8 @@ struct Rendered {
     short: Vec<u8>,
     swaps: u64,
     api_mismatch: Option<String>,
+    /// failures observed with interrupting / hard-failing sinks
+    sink_fails: Vec<(&'static str, String)>,
 }
 
 const HDR: (&str, &str) = ("a/old name.txt", "b/new.txt");
@@ -93,7 +127,34 @@ fn render(alg: Algorithm, as_str: bool, old: &[u8], new: &[u8], r: Render, repai
                 };
                 let mut sw = ShortWriter { buf: Vec::new(), max: 3 };
                 u.to_writer(&mut sw).expect("ShortWriter never fails");
-                (w, u.to_string(), sw.buf, api_mismatch)
+                let mut sink_fails: Vec<(&'static str, String)> = Vec::new();
+                // (1) a sink that reports EINTR on every 2nd / 3rd write call: `write_all` semantics retry
+                for every in [2u64, 3] {
+                    let mut hs = HostileSink { buf: Vec::new(), calls: 0, interrupt_every: every, room: usize::MAX, max: if every == 2 { usize::MAX } else { 5 } };
+                    match u.to_writer(&mut hs) {
+                        Err(e) => sink_fails.push(("patch.interrupted_write_not_retried", format!("a sink whose every {}th write call fails with ErrorKind::Interrupted (to be retried) makes to_writer give up: {:?}", every, e))),
+                        Ok(()) => {
+                            if hs.buf != w {
+                                sink_fails.push(("patch.short_writes_lose_bytes", format!("a sink that interrupts every {}th write call received {} instead of {}", every, show(&hs.buf), show(&w))));
+                            }
+                        }
+                    }
+                }
+                // (2) a sink that fails hard after accepting `room` bytes: Ok(()) may only be returned
+                // when every byte was delivered, and what was delivered is a prefix of the output
+                if !w.is_empty() {
+                    for room in [0usize, 1, w.len() / 2, w.len() - 1] {
+                        let mut hs = HostileSink { buf: Vec::new(), calls: 0, interrupt_every: 0, room, max: usize::MAX };
+                        let res = u.to_writer(&mut hs);
+                        if !w.starts_with(&hs.buf) {
+                            sink_fails.push(("patch.short_writes_lose_bytes", format!("a sink with room for {} bytes received {} which is no prefix of {}", room, show(&hs.buf), show(&w))));
+                        }
+                        if res.is_ok() && hs.buf != w {
+                            sink_fails.push(("patch.sink_error_swallowed", format!("a sink that fails after {} of {} bytes: to_writer returned Ok(()) although only {} bytes were delivered", room, w.len(), hs.buf.len())));
+                        }
+                    }
+                }
+                (w, u.to_string(), sw.buf, api_mismatch, sink_fails)
             }};
         }
         if as_str {
@@ -106,7 +167,7 @@ fn render(alg: Algorithm, as_str: bool, old: &[u8], new: &[u8], r: Render, repai
     });
     vh::set_swap_repair(false);
     let swaps = vh::swaps() - swaps0;
-    res.map(|(writer, display, short, api_mismatch)| Rendered { writer, display, short, swaps, api_mismatch })
+    res.map(|(writer, display, short, api_mismatch, sink_fails)| Rendered { writer, display, short, swaps, api_mismatch, sink_fails })
 }
 
 /// One formatter object used twice: render with `r1`, reconfigure to `r2`, render again.  The
@@ -232,6 +293,9 @@ fn case(cfg: &Config, alg: Algorithm, old: &[u8], new: &[u8], renders: &[Render]
             }
             if let Some(m) = &rd.api_mismatch {
                 out.violation("patch.hunk_api_disagrees", format!("{} | {}", m, ctx()));
+            }
+            for (code, msg) in &rd.sink_fails {
+                out.violation(code, format!("{} | {}", msg, ctx()));
             }
             if rd.short != rd.writer {
                 out.violation(
